@@ -55,6 +55,7 @@ type Chan struct {
 	cap    int
 	closed bool
 	elemT  types.Type
+	ticker bool // always ready: every receive yields the current instant (time.Ticker model)
 }
 
 // unsafePtr stands for any unsafe.Pointer value; using one aborts the path as unsupported.
